@@ -125,6 +125,7 @@ class FakeTransport(asyncio.BaseTransport):
         self.lost = False
         self.protocol = None
         self.close_raises_after_loss = False
+        self.close_delay = 0.0  # > 0: connection_lost() is delivered that long after close() (TLS shutdown, a bridge, a slow serial driver)
 
     def get_extra_info(self, name, default=None):
         if name != "peername":
@@ -148,7 +149,10 @@ class FakeTransport(asyncio.BaseTransport):
             return
         self.closed = True
         self.log.add("transport_close", self.index)
-        self.log.loop.call_soon(self._deliver_lost, None)
+        if self.close_delay > 0:
+            self.log.loop.call_later(self.close_delay, self._deliver_lost, None)
+        else:
+            self.log.loop.call_soon(self._deliver_lost, None)
 
     def lose(self):
         """The peer went away."""
@@ -202,6 +206,8 @@ class FakeFactory:
         # both are functions of the scenario (not of the run), so that the same word behaves the same for every injected close()
         self.endpoint = "tcp4"
         self.traffic = False
+        self.deferred_made = False  # connection_made() scheduled with call_soon, as serial_asyncio does, instead of called before the factory returns
+        self.close_delay = 0.0
 
     def make(self):
         async def factory():
@@ -220,18 +226,26 @@ class FakeFactory:
                     # the factory's own connect future is cancelled (e.g. by its own watchdog): not caused by the manager
                     self.log.add("attempt_fail", i)
                     raise asyncio.CancelledError()
-                if outcome.endswith("fail"):
+                if outcome.endswith("fail") and not outcome.endswith("ok_dead"):
                     self.log.add("attempt_fail", i)
                     raise FAILURES[i % len(FAILURES)]()
                 transport = FakeTransport(self.log, i, self.endpoint)
                 transport.close_raises_after_loss = self.close_raises_after_loss
+                transport.close_delay = self.close_delay
                 protocol = SmartMeterMessageProtocol(asyncio.Queue(), [ModeDReader()])
                 transport.protocol = protocol
-                protocol.connection_made(transport)
+                if self.deferred_made:
+                    self.log.loop.call_soon(protocol.connection_made, transport)
+                else:
+                    protocol.connection_made(transport)
                 self.transports.append(transport)
                 self.log.add("attempt_ok", i)
+                if outcome.endswith("ok_dead"):
+                    # dead on arrival: the peer hung up while the factory was still returning (connection_lost() has already run)
+                    transport.lose()
                 if self.probe is not None:
-                    self.log.loop.call_later(0.05, self.probe, i)
+                    # (only while that connection is still up: after a loss the strategy object legitimately counts again)
+                    self.log.loop.call_later(0.05, lambda tr=transport, n=i: self.probe(n) if not (tr.lost or tr.closed) else None)
                 if lifetime is not None:
                     self.log.loop.call_later(lifetime, transport.lose)
                 if self.traffic:
@@ -267,7 +281,7 @@ def report(ctx) -> None:
 
 def run_scenario(outcomes, lifetimes, horizon: float, close_at=None, config=None, default_outcome="fail",
                  default_lifetime=None, use_clock_shim: bool = True, track_tasks: bool = True, close_raises_after_loss: bool = False,
-                 after_close: float = 200.0, epoch=None, restart_after: float | None = None):
+                 after_close: float = 200.0, epoch=None, restart_after: float | None = None, close_delay: float = 0.0, second_close_at: float | None = None):
     """Run ConnectionManager.connect_loop() on a fresh virtual loop.
 
     close_at: None | ("iteration", k, position) | ("time", t) - position: 'first' | 'last' | int index into the ready queue.
@@ -287,6 +301,8 @@ def run_scenario(outcomes, lifetimes, horizon: float, close_at=None, config=None
     key = zlib.crc32(repr((list(outcomes), list(lifetimes), sorted((config or {}).items()), default_outcome, default_lifetime)).encode())
     factory.endpoint = transports.KINDS[1:][key % (len(transports.KINDS) - 1)]
     factory.traffic = (key >> 8) % 2 == 1
+    factory.deferred_made = (key >> 9) % 2 == 1
+    factory.close_delay = close_delay
     shim = None
     saved = mc.datetime
     if use_clock_shim:
@@ -315,6 +331,7 @@ def run_scenario(outcomes, lifetimes, horizon: float, close_at=None, config=None
             if state["closed"]:
                 return
             state["closed"] = True
+            state["closes"] = state.get("closes", 0) + 1
             state["t_close"] = loop.vtime
             log.add("close_called")
             mgr.close()
@@ -363,6 +380,8 @@ def run_scenario(outcomes, lifetimes, horizon: float, close_at=None, config=None
             task.add_done_callback(returned)
             if close_at is not None and close_at[0] == "time":
                 loop.call_later(close_at[1], do_close)
+            if second_close_at is not None:
+                loop.call_later(second_close_at, do_close)
             await asyncio.sleep(horizon)
             for _ in range(3):  # a close() injected as the last callback of this very iteration runs one iteration later
                 await asyncio.sleep(0)
@@ -399,6 +418,8 @@ def run_scenario(outcomes, lifetimes, horizon: float, close_at=None, config=None
         asyncio.set_event_loop(None)
     result.update(endpoint=factory.endpoint, traffic=factory.traffic)
     STATS["endpoint:" + factory.endpoint] = STATS.get("endpoint:" + factory.endpoint, 0) + 1
+    if factory.deferred_made:
+        STATS["scenarios_with_connection_made_scheduled_after_the_factory_returns"] = STATS.get("scenarios_with_connection_made_scheduled_after_the_factory_returns", 0) + 1
     if factory.traffic:
         STATS["scenarios_in_which_the_meter_sends_readouts"] = STATS.get("scenarios_in_which_the_meter_sends_readouts", 0) + 1
         STATS["readouts_delivered_to_connected_protocols"] = STATS.get("readouts_delivered_to_connected_protocols", 0) + sum(1 for e in log.events if e[2] == "data_delivered")
